@@ -75,6 +75,22 @@ def cases(draw):
         if base:
             c["inputs"].append(dict(base, **{sorted(base)[-1]: {"t": "lock"}}))
             c["inputs"].append(dict(base, zz_unrelated={"t": "lock"}))
+        # a value of the WRONG type (numeric text where a number is compared, a number where text is compared, None) and exact
+        # numbers that are no builtin floats (Decimal, Fraction): whatever the evaluator does with them - a group, an error class -
+        # the generated module does too
+        import decimal
+        import fractions
+
+        for f, cl in sorted((c.get("classes") or {}).items()):
+            if f in base and cl in ("num", "str"):
+                wrong = ["30", "000042", " 7", "1.50", None] if cl == "num" else [7, 0.5, None, True]
+                c["inputs"].append(dict(base, **{f: M.enc(draw(st.sampled_from(wrong)))}))
+                if cl == "num":
+                    c["inputs"].append(dict(base, **{f: M.enc(draw(st.sampled_from([decimal.Decimal("0.1"), decimal.Decimal("7.10"), fractions.Fraction(1, 10),
+                                                                                   fractions.Fraction(1, 3), decimal.Decimal(9007199254740993)])))}))
+        for f in c["prog"]["splitters"] or []:
+            if f in base:
+                c["inputs"].append(dict(base, **{f: M.enc(draw(st.sampled_from([decimal.Decimal("7.10"), fractions.Fraction(1, 3), decimal.Decimal("1E+2"), "000042", " 7"])))}))
         # a value whose every use raises an exception without arguments, in any one field
         if base:
             f = draw(st.sampled_from(sorted(base)))
